@@ -200,6 +200,25 @@ CHECKS.update({
     ),
 })
 
+CHECKS.update({
+    "C11": dict(
+        category="exploration",
+        technique="exhaustive enumeration on the real RocksDB and Fjall backends against a reference map: whole-universe isolation sweep over ~400 colliding logical cells + every history of batches/abandoned batches/reopen up to the bound on a 16-cell universe",
+        text=("Both shipped backends, real databases in scratch directories. SWEEP: ~400 (thorough ~470) logical cells = (wide column, value type, "
+              "key) / (set column, key, element) over 13 columns (prefixed/suffixed discriminants of fixed, variable and empty width, discriminants "
+              "that are prefixes of one another, unit keys and values, nested keys, raw fixed-width keys, twin columns with identical bytes) with "
+              "keys/elements that are empty, prefix/extension related, 0xFF-heavy with same-length neighbours, at the 127/128- and 255/256/257-byte "
+              "length boundaries and multi-kilobyte: one cell per batch in forward and reverse order through both write paths, after EVERY write "
+              "every point read and every member scan of the universe is compared with the model; every cell deleted and rewritten alone in the "
+              "full context; whole-universe batches; delete+put+delete inside one batch; reopen points. HISTORIES: every history of <= 3 "
+              "single-operation batches, [2-operation batch, single] and [single, 2-operation batch] (mixed write paths), abandoned batches anywhere, "
+              "reopen after every step of <= 2-batch histories, whole universe compared after every step, touched cells read before every commit."),
+        design_ref="DESIGN.md 4/C11",
+        note=("Sequential, one handle; atomicity is observed as all-or-nothing visibility of committed / abandoned batches; a crash inside a native commit "
+              "(torn write in RocksDB/Fjall) cannot be injected from here and is not explored. Each part runs in a child process: an abort inside a backend is a violation."),
+    ),
+})
+
 NOT_YET = {
 }
 
@@ -226,7 +245,7 @@ def main():
             na.append({"property_id": pid, "reason": NOT_YET.get(pid, "check under construction in this build round (see DESIGN.md section 4 for the planned bounded-exhaustive check); not claimed until it runs green")})
     m = {
         "version": 1,
-        "setup_cmd": "cd /verif/harness && CARGO_NET_OFFLINE=true cargo build --release --offline",
+        "setup_cmd": "cd /verif/harness && CARGO_NET_OFFLINE=true cargo build --release --offline -p vh && CARGO_NET_OFFLINE=true cargo build --release --offline -p vkv",
         "hooks": {
             "guard": "cargo feature `verif` of crates qbice and qbice_storage (optional dependency qbice_verif_rt)",
             "enable": "harness depends on qbice with default-features=false, features=[\"verif\"]; per-file `#[cfg(feature = \"verif\")] use qbice_verif_rt::{tokio, std, parking_lot, crossbeam_channel};` alias imports",
